@@ -416,3 +416,46 @@ func extraLargeInputs(ctx *core.Ctx) (int, string, []core.ExtraFailure) {
 	}
 	return evals, fmt.Sprintf("plaintext sizes %v, secrets 1..1000 bytes (around MD5's 55/56/64/119/120 padding boundaries), AD 0..1000 bytes: all CBC/GCM entry points equal the stdlib reference (own EVP derivation) and round-trip", sizes), fails
 }
+
+
+// ---------- extra: the key derivation for EVERY secret length up to 2200 and around every power of two
+
+// One Encrypt (1-byte plaintext, fixed salt) per secret length, compared with the independent
+// EVP_BytesToKey derivation: all lengths 0..2200, then 2^k-40 .. 2^k+40 for every k up to 16
+// (the largest buffer constant in the code is io.Copy's 32 KiB), both as []byte and as string.
+// Guards against a scratch buffer of ANY plausible size with a wrong fallback test — the
+// window that matters is "buffer size − 16 (previous digest) − 8 (salt) … buffer size".
+func extraSecretLengthSweep(ctx *core.Ctx) (int, string, []core.ExtraFailure) {
+	var lens []int
+	for n := 0; n <= 2200; n++ {
+		lens = append(lens, n)
+	}
+	for k := 12; k <= 16; k++ {
+		for d := -40; d <= 40; d++ {
+			lens = append(lens, 1<<k+d)
+		}
+	}
+	salt := seqBytes(8, 0xb1)
+	evals := 0
+	var fails []core.ExtraFailure
+	big := make([]byte, 1<<16+64)
+	for i := range big {
+		big[i] = byte(i*7 + i>>8)
+	}
+	for _, n := range lens {
+		secret := big[:n]
+		ty := []string{"bb", "bs"}[n%2]
+		line := fmt.Sprintf("enc-cbc %s %s %s 00", ty, hx(salt), hx(secret))
+		if n%5 == 0 {
+			line = fmt.Sprintf("enc-gcm %s %s %s - 00", ty, hx(salt), hx(secret))
+		}
+		c := core.Case{Lines: []string{"@ C09 x", line}}
+		out := impl(c)
+		evals++
+		if f := check(c, out); f != nil && len(fails) < 3 {
+			f.Desc = fmt.Sprintf("secret of %d bytes: %s", n, f.Desc)
+			fails = append(fails, core.ExtraFailure{Failure: *f, Payload: map[string]any{"lines": c.Lines, "impl_out": out, "secret_len": n}})
+		}
+	}
+	return evals, fmt.Sprintf("%d secret lengths (every length 0..2200; 2^k±40 for k = 12..16): envelope = independent EVP_BytesToKey(MD5) derivation + stdlib CBC/GCM", len(lens)), fails
+}
